@@ -378,7 +378,7 @@ impl Def {
         for (n, _) in &self.caps {
             s.push_str(&format!("v{} = 'changed'\n", n));
         }
-        s.push_str("m = {tag: 7, f}\na2 = {m}\na3 = {a2}\n");
+        s.push_str("idf = |v| v\nm = {tag: 7, f, idm: |v| v}\na2 = {m}\na3 = {a2}\n");
         s
     }
 }
@@ -402,6 +402,10 @@ impl Form {
 
 #[derive(Clone, Debug)]
 struct Call {
+    /// piped forms only: the piped value first goes through an identity stage, `x -> m.idm -> f …`
+    /// (1, a method) or `x -> idf -> f …` (2, a local function; the shape of F-C02-9, not generated
+    /// while that finding is open): chained pipes must equal the nested calls
+    pre: u8,
     /// length of the access chain to the method for Inst / PipedInst: 1 `m.f`, 2 `a2.m.f`, 3 `a3.a2.m.f`
     depth: u8,
     form: Form,
@@ -441,6 +445,9 @@ impl Call {
             texts.swap(0, 1);
         }
         let path = match self.depth { 0 | 1 => "m.f", 2 => "a2.m.f", _ => "a3.a2.m.f" };
+        if self.form.is_piped() && self.pre > 0 {
+            texts[0] = format!("{} -> {}", texts[0], if self.pre == 1 { "m.idm" } else { "idf" });
+        }
         let paren = |f: &str, a: &[String]| format!("{}({})", f, a.join(", "));
         let free = |f: &str, a: &[String]| if a.is_empty() { format!("{}()", f) } else { format!("{} {}", f, a.join(", ")) };
         let call = match &self.form {
@@ -647,7 +654,9 @@ fn gen_call(rng: &mut Rng, d: &Def, count: usize, n_packs: usize, form_pick: usi
     };
     // paren-free calls cannot start with a parenthesised/packed-empty ambiguity: `f ()...` is fine,
     // but a call without arguments is written `f()`
-    Call { depth, form, args }
+    // F-C02-9 (known): a stage through a *local* function id whose result is piped on is not generated
+    let pre = if form.is_piped() && rng.chance(1, 2) { 1 } else { 0 };
+    Call { pre, depth, form, args }
 }
 
 // ------------------------------------------------------------------------------------------------
@@ -2212,11 +2221,16 @@ impl CaseAst {
                         out.push(CaseAst::Bind(d.clone(), c2));
                     }
                 }
+                if c.pre > 0 {
+                    let mut c2 = c.clone();
+                    c2.pre = 0;
+                    out.push(CaseAst::Bind(d.clone(), c2));
+                }
                 if let Form::PipedInst = c.form {
-                    out.push(CaseAst::Bind(d.clone(), Call { depth: c.depth, form: Form::Inst(false), args: c.args.clone() }));
+                    out.push(CaseAst::Bind(d.clone(), Call { pre: 0, depth: c.depth, form: Form::Inst(false), args: c.args.clone() }));
                 }
                 if c.depth > 1 {
-                    out.push(CaseAst::Bind(d.clone(), Call { depth: c.depth - 1, form: c.form.clone(), args: c.args.clone() }));
+                    out.push(CaseAst::Bind(d.clone(), Call { pre: 0, depth: c.depth - 1, form: c.form.clone(), args: c.args.clone() }));
                 }
                 if d.self_ref.is_some() {
                     let mut d2 = d.clone();
@@ -2224,10 +2238,10 @@ impl CaseAst {
                     out.push(CaseAst::Bind(d2, c.clone()));
                 }
                 if !matches!(c.form, Form::Paren) && !c.form.is_piped() {
-                    out.push(CaseAst::Bind(d.clone(), Call { depth: 1, form: Form::Paren, args: c.args.clone() }));
+                    out.push(CaseAst::Bind(d.clone(), Call { pre: 0, depth: 1, form: Form::Paren, args: c.args.clone() }));
                 }
                 if let Form::Piped(_) = c.form {
-                    out.push(CaseAst::Bind(d.clone(), Call { depth: 1, form: Form::Paren, args: c.args.clone() }));
+                    out.push(CaseAst::Bind(d.clone(), Call { pre: 0, depth: 1, form: Form::Paren, args: c.args.clone() }));
                 }
                 // definition side
                 if d.generator {
@@ -2852,7 +2866,7 @@ fn fixed_cases(ctx: &mut Ctx) {
             args.push((V::I(100 + i as i64), false));
         }
         for form in [Form::Paren, Form::Free, Form::Inst(false), Form::Piped(false), Form::PipedInst] {
-            ctx.push(bind_case(&d, &Call { depth: 1 + (n_extra % 3) as u8, form, args: args.clone() }));
+            ctx.push(bind_case(&d, &Call { pre: 0, depth: 1 + (n_extra % 3) as u8, form, args: args.clone() }));
         }
     }
     // self reference x defaults x ordinary captures x generator: the function's own capture slot
@@ -2871,7 +2885,7 @@ fn fixed_cases(ctx: &mut Ctx) {
                     for count in 1..=1 + n_opt {
                         let args: Vec<(V, bool)> = (0..count).map(|k| (V::I(100 + k as i64), false)).collect();
                         let form = [Form::Paren, Form::Free, Form::Inst(false), Form::PipedInst, Form::Piped(false)][(n_opt + n_caps + self_pos + count) % 5].clone();
-                        ctx.push(bind_case(&ds, &Call { depth: 1 + ((count + self_pos) % 3) as u8, form, args }));
+                        ctx.push(bind_case(&ds, &Call { pre: 0, depth: 1 + ((count + self_pos) % 3) as u8, form, args }));
                     }
                 }
             }
@@ -2887,10 +2901,10 @@ fn fixed_cases(ctx: &mut Ctx) {
                 for k in 0..extra {
                     args.push((V::I(5 + k as i64), false));
                 }
-                ctx.push(bind_case(&dm, &Call { depth, form: Form::PipedInst, args: args.clone() }));
-                ctx.push(bind_case(&dm, &Call { depth, form: Form::Inst(extra % 2 == 0), args: args.clone() }));
+                ctx.push(bind_case(&dm, &Call { pre: 0, depth, form: Form::PipedInst, args: args.clone() }));
+                ctx.push(bind_case(&dm, &Call { pre: 0, depth, form: Form::Inst(extra % 2 == 0), args: args.clone() }));
                 args.push((V::T(vec![V::I(8), V::I(9)]), true));
-                ctx.push(bind_case(&dm, &Call { depth, form: Form::PipedInst, args }));
+                ctx.push(bind_case(&dm, &Call { pre: 0, depth, form: Form::PipedInst, args }));
             }
         }
     }
@@ -2913,24 +2927,24 @@ fn fixed_cases(ctx: &mut Ctx) {
     ];
     for args in packs {
         for form in [Form::Paren, Form::Free, Form::Inst(false)] {
-            ctx.push(bind_case(&d3, &Call { depth: 1, form, args: args.clone() }));
+            ctx.push(bind_case(&d3, &Call { pre: 0, depth: 1, form, args: args.clone() }));
         }
         let mut piped = vec![(V::I(0), false)];
         piped.extend(args.clone());
         let d4 = Def { params: vec![id(1), id(2), id(3), id(4)], variadic: false, caps: vec![], generator: false, self_ref: None };
-        ctx.push(bind_case(&d4, &Call { depth: 1, form: Form::Piped(false), args: piped }));
+        ctx.push(bind_case(&d4, &Call { pre: 0, depth: 1, form: Form::Piped(false), args: piped }));
     }
     // F-C02-3 / F-C02-4 (fixed): sole ellipsis patterns; generator calls with empty/short packs
     for pk in [Pat::Pk(Some(1)), Pat::Pk(None)] {
         let ds = Def { params: vec![Param { pat: Pat::Tup(vec![pk.clone()]), default: None }, id(2)], variadic: false, caps: vec![], generator: false, self_ref: None };
         for c in [V::T(vec![V::I(1), V::I(2), V::I(3)]), V::L(vec![V::I(1)]), V::T(vec![]), V::S("ab".into()), V::I(3)] {
-            ctx.push(bind_case(&ds, &Call { depth: 1, form: Form::Paren, args: vec![(c.clone(), false), (V::I(9), false)] }));
+            ctx.push(bind_case(&ds, &Call { pre: 0, depth: 1, form: Form::Paren, args: vec![(c.clone(), false), (V::I(9), false)] }));
         }
     }
     let dg = Def { params: vec![id(1), opt(2, V::I(20))], variadic: false, caps: vec![(3, V::I(30))], generator: true, self_ref: None };
     for args in [vec![e(), (V::I(1), false)], vec![(V::I(1), false), e()], vec![e(), e(), p(vec![1])], vec![p(vec![1]), e()], vec![p(vec![1, 2])]] {
         for form in [Form::Paren, Form::Free, Form::Inst(false)] {
-            ctx.push(bind_case(&dg, &Call { depth: 1, form, args: args.clone() }));
+            ctx.push(bind_case(&dg, &Call { pre: 0, depth: 1, form, args: args.clone() }));
         }
     }
     fixed_cases2(ctx);
@@ -3159,6 +3173,9 @@ fn main() {
             }
             if matches!(c.form, Form::PipedInst) {
                 ctx.rep.bump(&format!("bind:piped-into-method,depth={}", c.depth));
+            }
+            if c.pre > 0 {
+                ctx.rep.bump("bind:chained-pipe");
             }
             ctx.push(bind_case(&d, &c));
         }
